@@ -224,7 +224,8 @@ fn runs(out: &mut Out, r: &mut Rng, count: u64, long: u64) {
         let mut tape_errors = 0u64;
         out.ev(json!({"ev":"reset","m": if m128 {128} else {48}, "banks": [["rom",0],["ram",5],["ram",2],["ram",0]]}));
         // start somewhere in the frame
-        let start = r.below(frame as u64) as usize;
+        // (one run in eight starts inside or right behind the INT pulse)
+        let start = if r.chance(1, 8) { r.below(40) as usize } else { r.below(frame as u64) as usize };
         emu.verif_wait(start);
         {
             let cpu = emu.verif_cpu();
@@ -252,7 +253,9 @@ fn runs(out: &mut Out, r: &mut Rng, count: u64, long: u64) {
             let n = if r.chance(1, 2) { 1 } else { n };
             // a quarter of the calls run in maximum-speed mode with a stopwatch that reports a long time at once: such a
             // call emulates exactly one frame and returns Timeout; the host may switch modes between any two calls
-            let max_mode = r.chance(1, 4);
+            // (not with a breakpoint on every single instruction: such a call never gets as far as its time-limit check,
+            // it hands control back after each instruction instead, and no frame is ever reported that way)
+            let max_mode = r.chance(1, 4) && bp_k != 1;
             let n = if max_mode { 1 } else { n };
             if max_mode {
                 SW_MODE.with(|m| m.set(1));
